@@ -35,13 +35,15 @@ class RspHandler:
             self.send(wire_data)
             res = self._ack_queue.get(timeout=0.5)
             while res != "+":
+                # A retransmission that is acknowledged is a success, give
+                # up only when another retransmission would be required.
+                if retries <= 0:
+                    raise ValueError("retry fail")
+                retries -= 1
                 self.logger.warning("discards %s", res)
                 self.logger.debug("resend-GDB> %s", data)
                 self.send(wire_data)
                 res = self._ack_queue.get(timeout=0.5)
-                retries -= 1
-                if retries == 0:
-                    raise ValueError("retry fail")
 
     def send(self, msg):
         """Send ascii data to target"""
